@@ -1106,6 +1106,23 @@ class FnEmitter:
             r = s.intrinsic(name, d, rty, args, A)
             if r is not None:
                 return r
+            if name in ('malloc', '_Znwm') and d is not None and args and args[0][0][0] == 'int':
+                # heap object of constant size whose result is cast to T* with sizeof(T) == size: typed allocation,
+                # so that CBMC creates a T object instead of a byte array
+                ety = None
+                for bl in s.f.blocks.values():
+                    for l in bl:
+                        m = re.match(r'\s*%\S+ = bitcast i8\* %' + re.escape(d) + r' to (.*?)(?:, !.*)?$', l)
+                        if m and ety is None:
+                            try:
+                                t = Parser(tokenize(m.group(1))).parse_type()
+                                if isinstance(t, PtrTy) and em.layout(t.to)[0] == args[0][0][1]:
+                                    ety = t
+                            except Exception:
+                                pass
+                if ety is not None:
+                    c = s.declare(d, rty)
+                    return ['%s = (u8*)malloc(sizeof(%s));' % (c, em.ct(ety.to))]
             if name == 'vmodel_alloc':
                 # typed allocation: element type from the (first) bitcast of the result
                 hint = s.orig_ptr(args[2][0])
